@@ -6,6 +6,6 @@ CONSTANTS
   EmitOpts = 2
   EmitNames = {"a.c"}
   EmitInputs = 1
-  Devs = {"ArgcDesync", "OneCharName", "EmitQbeFile", "HeaderLinked"}
+  Devs = {"EmitQbeFile"}
 INVARIANTS Inv_Refines Inv_Explained Inv_Emit
 CHECK_DEADLOCK FALSE
